@@ -6,6 +6,7 @@
 //	c09 run    -seed N -tier quick|thorough -out DIR [-workers W] [-keep] [-noshrink] [-shortlen BYTES]
 //	c09 child  -inputs FILE -from K -out FILE -log FILE [-timeout S] [-mem MiB]     (internal)
 //	c09 replay -input FILE [-hex]
+//	c09 skeleton -seed N -n K -out FILE      (importer range-expansion loop vs the Coq skeleton)
 //
 // run writes DIR/cases.txt, DIR/summary.txt and DIR/fail-<signature>.dbc; it exits 0 when the run
 // completed (failures of the library are data), non-zero only for errors of the machinery.
@@ -35,6 +36,8 @@ func main() {
 		os.Exit(childMain(os.Args[2:]))
 	case "replay":
 		os.Exit(replayMain(os.Args[2:]))
+	case "skeleton":
+		os.Exit(skeletonMain(os.Args[2:]))
 	}
 	fmt.Fprintln(os.Stderr, "usage: c09 run|child|replay ...")
 	os.Exit(2)
